@@ -272,6 +272,155 @@ def layout_buckets(nb):
     return 16 * 1024 * 1024
 
 
+def gen_mix(seed, idbase=0, nops=220, name="mix"):
+    """Every feature in ONE history (each property's check runs a few of these and reports the conjuncts that
+    belong to it): 1-3 maps of random key types, small tables (collisions) with random buffer parameters, several
+    handles per map (lookups with and without parameters, clones, a cloned database handle), keys that exactly
+    fill their slot, the empty key, values from 0 bytes to beyond 16 KiB; single calls, typed calls through the
+    integer key type, the *_string and bulk variants, put_from_iter (also fed by the map's own iterator),
+    traversals of every flavour (also interleaved with calls through other handles), statistics (all at once
+    and single walks), read_fill_buffer, flush / sync at map and database level followed by a snapshot that
+    another process opens, sessions closed in-process or by process exit and reopened with other parameters."""
+    rng = random.Random(seed)
+    s = Script(idbase, design=False, name=name)
+    s.meta.update(kind="mix", seed=seed)
+    nmaps = rng.choice([1, 1, 2, 3])
+    s.op("open_db", db=0, dir="d")
+    s.op("clone_db", db=1, **{"from": 0})
+    maps = []
+    nh = 0
+    vlens = [0, 1, 3, 14, 15, 20, 21, 100, 300, 900, 1100, 1500, 3000, 17000]
+    vids = [s.val_ascii(x) for x in vlens]
+    for i in range(nmaps):
+        kt = rng.choice(KTS)
+        nb = rng.choice([["BucketsSize", 1], ["BucketsSize", 2], ["BucketsSize", 4], ["BucketsSize", 16], ["BucketsSize", 64], ["Capacity", 12], ["BucketsSize", 300]])
+        params = {"buckets": nb}
+        if rng.random() < 0.5:
+            params.update(key_buf=rng.choice(BUF_PARAMS), val_buf=rng.choice(BUF_PARAMS), htx_buf=rng.choice(BUF_PARAMS))
+        nh += 1
+        nm = ["mx", "mx.1", "my"][i]
+        s.op("map", h=nh, db=0, name=nm, kt=kt, params=params)
+        if kt in ("u64", "i64", "vu64"):
+            keys = typed_keys(s, rng, kt, 14)
+        else:
+            keys = [k for k in [s.key(ln) for ln in (0, 10, 10, 11, 11, 18, 19, 12, 26, 1, 4, 30, 100, 1000)] if k]
+        maps.append(dict(name=nm, kt=kt, keys=keys, hs=[nh], base=nh))
+    snap = 0
+
+    def snapshot(which):
+        nonlocal snap
+        snap += 1
+        d = "snap%d" % snap
+        s.op("copy_dir", **{"from": "d", "to": d})
+        for m in which:
+            s.op("child_dump", dir=d, name=m["name"], kt=m["kt"], ks=m["keys"], **{"as": "C03.snapshot"})
+            if rng.random() < 0.3:
+                s.op("decode", dir=d, name=m["name"], native=True)
+        s.op("rm_dir", dir=d)
+
+    def typed_int(m, ks):
+        return m["kt"] in ("u64", "i64", "vu64") and all(k in s.intkeys for k in ks) and rng.random() < 0.6
+
+    for i in range(nops):
+        m = rng.choice(maps)
+        h = rng.choice(m["hs"])
+        k = rng.choice(m["keys"])
+        r = rng.random()
+        if r < 0.26:
+            via = {"via": "int"} if typed_int(m, [k]) else {}
+            s.op(rng.choice(["put", "put", "put", "put_string"]) if not via else "put", h=h, k=k, v=rng.choice(vids), **via)
+        elif r < 0.38:
+            via = {"via": "int"} if typed_int(m, [k]) else {}
+            s.op(rng.choice(["del", "del", "del_string"]) if not via else "del", h=h, k=k, **via)
+        elif r < 0.48:
+            via = {"via": "int"} if typed_int(m, [k]) else {}
+            s.op(rng.choice(["get", "get", "includes", "get_string"]) if not via else rng.choice(["get", "includes"]), h=h, k=k, **via)
+        elif r < 0.52:
+            s.op(rng.choice(["len", "is_empty"]), h=h)
+        elif r < 0.60:
+            ks = list(dict.fromkeys(rng.choice(m["keys"]) for _ in range(rng.randrange(1, 7))))
+            via = {"via": "int"} if typed_int(m, ks) else {}
+            w = rng.random()
+            if w < 0.35:
+                s.op(rng.choice(["bulk_get", "bulk_get_string"]), h=h, ks=ks if rng.random() < 0.7 else ks + [ks[0]], **via)
+            elif w < 0.55:
+                s.op(rng.choice(["bulk_del", "bulk_del_string"]), h=h, ks=ks, **via)
+            elif w < 0.8:
+                s.op(rng.choice(["bulk_put", "bulk_put_string"]), h=h, ks=ks, vs=[rng.choice(vids) for _ in ks], **via)
+            elif w < 0.93:
+                s.op("put_from_iter", h=h, ks=ks + [ks[0]], vs=[rng.choice(vids) for _ in range(len(ks) + 1)], **via)
+            else:
+                s.op("put_from_iter_self", h=h, src=rng.choice(m["hs"]), flavour=rng.choice(["iter", "iter_mut", "into_iter"]))
+        elif r < 0.68:
+            if len(m["hs"]) > 1 and rng.random() < 0.5:
+                s.op("iter", h=h, flavour=rng.choice(FLAVOURS), interleave=rng.sample(["len", "is_empty", "new_iter", "get", "includes"], rng.randrange(1, 4)), probe=m["keys"][:5])
+            else:
+                s.op("iter", h=h, flavour=rng.choice(FLAVOURS))
+        elif r < 0.73:
+            if rng.random() < 0.5:
+                s.op("stats", h=h, filling=True)
+            else:
+                s.op("stats", h=h, only=rng.choice(["kfree", "vfree", "ksize", "vsize", "klen", "vlen", "kcount", "filling"]))
+        elif r < 0.76:
+            s.op("read_fill_buffer", h=h)
+        elif r < 0.84:
+            if rng.random() < 0.7:
+                s.op(rng.choice(["flush", "sync_all", "sync_data"]), h=h)
+                snapshot([m])
+            else:
+                s.op(rng.choice(["db_sync_all", "db_sync_data"]), db=rng.choice([0, 1]))
+                snapshot(maps)
+        elif r < 0.89:
+            # another handle of the same map (or one handle less)
+            if len(m["hs"]) < 4 and rng.random() < 0.75:
+                nh += 1
+                how = rng.random()
+                if how < 0.3:
+                    s.op("clone_h", h=nh, **{"from": h})
+                elif how < 0.55:
+                    s.op("map", h=nh, db=0, name=m["name"], kt=m["kt"])
+                elif how < 0.8:
+                    s.op("map", h=nh, db=rng.choice([0, 1]), name=m["name"], kt=m["kt"], params=rng.choice(REOPEN_PARAMS[1:]))
+                else:
+                    s.op("map", h=nh, db=1, name=m["name"], kt=m["kt"])
+                m["hs"].append(nh)
+            elif len(m["hs"]) > 1:
+                s.op("drop_h", h=m["hs"].pop(rng.randrange(len(m["hs"]))))
+        elif r < 0.94:
+            s.op("dump", h=h, ks=m["keys"])
+        else:
+            # the session ends (sometimes right after an update, sometimes after a sync); the next one opens
+            # every map with parameters of its own
+            if rng.random() < 0.5:
+                s.op(rng.choice(["put", "del"]), h=h, k=k, **({"v": rng.choice(vids)} if False else {}))
+                if s.ops[-1]["op"] == "put":
+                    s.ops[-1]["v"] = rng.choice(vids)
+            for mm in maps:
+                s.op("dump", h=rng.choice(mm["hs"]), ks=mm["keys"])
+            s.op(rng.choice(["drop_all", "new_process"]))
+            for mm in maps:
+                s.op("decode", dir="d", name=mm["name"], native=True)
+            s.op("open_db", db=0, dir="d")
+            s.op("clone_db", db=1, **{"from": 0})
+            for mm in maps:
+                nh += 1
+                prm = rng.choice(REOPEN_PARAMS)
+                if prm:
+                    s.op("map", h=nh, db=0, name=mm["name"], kt=mm["kt"], params=prm)
+                else:
+                    s.op("map", h=nh, db=0, name=mm["name"], kt=mm["kt"])
+                mm["hs"] = [nh]
+                s.op("dump", h=nh, ks=mm["keys"])
+                s.op("iter", h=nh, flavour=rng.choice(FLAVOURS))
+    for mm in maps:
+        s.op("dump", h=rng.choice(mm["hs"]), ks=mm["keys"])
+    s.op("new_process")
+    for mm in maps:
+        s.op("decode", dir="d", name=mm["name"], native=True)
+        s.op("child_dump", dir="d", name=mm["name"], kt=mm["kt"], ks=mm["keys"])
+    return s
+
+
 def gen_l1(seed, idbase=0, nops=3000, nkeys=300, nb=("BucketsSize", 64), kt="bytes", big=2, reopen_every=700,
            bufs=False, name="l1", final_decode=True, huge=False):
     """long history, contract-level validation of every call (L1), snapshots at every close (L3)"""
